@@ -15,6 +15,7 @@ import (
 	"log/slog"
 	"net"
 	"net/netip"
+	"os"
 	"sort"
 	"strings"
 	"sync"
@@ -99,6 +100,9 @@ type simBotSpec struct {
 	ExtraCaps     []bgp.ParameterCapabilityInterface
 	// server-side neighbour configuration
 	Neighbor func(n *oc.Neighbor)
+	// configuration keys that only a configuration FILE can set (the API path forces a default):
+	// applied to the peer's stored configuration right after it was added, before any session.
+	FileOnly func(n *oc.Neighbor)
 }
 
 type simBot struct {
@@ -277,6 +281,7 @@ func (b *simBot) openMsg() *bgp.BGPMessage {
 func (b *simBot) connect() {
 	b.disconnect()
 	w := b.w
+	w.settle()
 	srv, bot := simPipe(w.serverIP, b.spec.IP, 179, 40000+b.idx)
 	b.mu.Lock()
 	b.gen++
@@ -534,6 +539,9 @@ func (w *simWorld) start() {
 	}
 	w.serverIP = [4]byte{10, 0, 0, 254}
 	logger := slog.New(slog.NewTextHandler(io.Discard, &slog.HandlerOptions{Level: slog.LevelError}))
+	if os.Getenv("VERIF_SIM_LOG") != "" {
+		logger = slog.New(slog.NewTextHandler(os.Stderr, &slog.HandlerOptions{Level: slog.LevelDebug}))
+	}
 	w.s = NewBgpServer(LoggerOption(logger, nil))
 	go w.s.Serve()
 	g := &api.Global{Asn: w.serverAS, RouterId: w.routerID, ListenPort: -1}
@@ -582,6 +590,16 @@ func (w *simWorld) addPeerFor(b *simBot) error {
 	if err == nil {
 		if p := w.peer(b); p != nil {
 			w.everPeer = append(w.everPeer, p)
+			if b.spec.FileOnly != nil {
+				w.must(w.s.mgmtOperation(func() error {
+					p.fsm.lock.Lock()
+					c := p.fsm.pConf.ReadCopy()
+					b.spec.FileOnly(&c)
+					p.fsm.pConf.Update(&c)
+					p.fsm.lock.Unlock()
+					return nil
+				}, false))
+			}
 		}
 	}
 	w.settle()
@@ -765,8 +783,11 @@ func (w *simWorld) stateKey(extra ...string) string {
 			continue
 		}
 		conf := p.fsm.pConf.ReadOnly()
-		fmt.Fprintf(&sb, "BOT %s: fsm=%v admin=%v rep=%v conn=%v adj=%v sent=%s gr=%v/%v view=\n%s", b.spec.Name,
-			p.State(), p.AdminState(), conf.State.SessionState, b.connected(), adj[i], w.sentPathsDump(p),
+		// pending items in the FSM's channels are hidden state with future effects
+		chans := fmt.Sprintf("%d/%d/%d/%d/%d/%d", len(p.fsm.notification), len(p.fsm.deconfiguredNotification), len(p.fsm.adminStateCh),
+			len(p.fsm.connCh), len(p.fsm.outgoingConnCh), p.fsm.outgoingCh.Len())
+		fmt.Fprintf(&sb, "BOT %s: fsm=%v admin=%v rep=%v conn=%v chans=%s idlehold=%v adj=%v sent=%s gr=%v/%v view=\n%s", b.spec.Name,
+			p.State(), p.AdminState(), conf.State.SessionState, b.connected(), chans, p.fsm.idleHoldTime, adj[i], w.sentPathsDump(p),
 			conf.GracefulRestart.State.PeerRestarting, conf.GracefulRestart.State.LocalRestarting, simViewString(b.view))
 	}
 	for _, e := range extra {
